@@ -103,7 +103,7 @@ Ltac zmod :=
   end;
   unfold eqm; f_equal; ring.
 
-Ltac unfold_m := unfold w_rhs, addm, subm, mulm, negm in *.
+Ltac unfold_m := cbv beta delta [w_rhs addm subm mulm negm] in *.
 
 Lemma neg_sq p y : mulm p (negm p y) (negm p y) = mulm p y y.
 Proof. unfold_m. zmod. Qed.
@@ -246,3 +246,1015 @@ Proof.
   destruct (w_torsion_free c Q) eqn:T; [|discriminate].
   intros [= <-]. apply w_set_affine_on_curve in E. repeat split; try tauto. now apply w_torsion_free_spec.
 Qed.
+
+(* ---- twisted Edwards decoders --------------------------------------------------------------- *)
+
+Lemma eqm_shift p A B C D : eqm p C D -> A - B = C - D -> eqm p A B.
+Proof.
+  intros H E. replace A with (B + (C - D)) by lia. rewrite H.
+  unfold eqm. f_equal. ring.
+Qed.
+
+Lemma one_mod p : 1 < p -> 1 mod p = 1.
+Proof. intros. apply Z.mod_small. lia. Qed.
+
+Lemma e_set_affine_on_curve c x y P :
+  e_set_affine c x y = Some P -> P = (x, y) /\ e_on_curve (ec c) P = true.
+Proof.
+  unfold e_set_affine. cbv zeta.
+  match goal with |- (if ?b then _ else _) = _ -> _ => destruct b eqn:E end; [|discriminate].
+  intros [= <-]. split; [reflexivity|]. apply Z.eqb_eq in E.
+  unfold e_on_curve, eaff_on_curve. cbn [Zp feqb fmul fadd f1]. apply Z.eqb_eq.
+  unfold ec_p in E. unfold_m. rewrite E. zmod.
+Qed.
+
+Lemma e_from_y_on_curve c y P :
+  prime (ec_p c) -> e_from_y c y = Some P -> snd P = y /\ e_on_curve (ec c) P = true.
+Proof.
+  intros Hp. pose proof (prime_ge_2 _ Hp) as Hp2.
+  unfold e_from_y. cbv zeta.
+  set (p := ec_p c) in *. set (a := ep_a (ec c)). set (d := ep_d (ec c)).
+  set (den := subm p a (mulm p d (mulm p y y))).
+  destruct (den =? 0) eqn:Ed; [discriminate|]. apply Z.eqb_neq in Ed.
+  destruct (ts_sqrt p (ec_e c) (ec_rou c) _) as [x|] eqn:Es; [|discriminate].
+  intros [= <-]. split; [reflexivity|].
+  apply ts_sqrt_sound in Es.
+  assert (Hden : 0 < den < p).
+  { assert (0 <= den < p) by (unfold den, subm; apply Z.mod_pos_bound; lia). lia. }
+  pose proof (zp_inv_correct p den Hp Hden) as Hi.
+  assert (Hs : eqm p (x * x) ((1 - y * y) * zp_inv p den)).
+  { unfold eqm. unfold_m. rewrite Es. zmod. }
+  assert (Hd : eqm p den (a - d * (y * y))).
+  { unfold eqm, den. unfold_m. zmod. }
+  assert (Hi' : eqm p (den * zp_inv p den) 1).
+  { unfold eqm. rewrite Hi. symmetry. apply one_mod. lia. }
+  assert (K : eqm p (x * x * (a - d * (y * y))) (1 - y * y)).
+  { rewrite <- Hd, Hs.
+    replace ((1 - y * y) * zp_inv p den * den) with ((1 - y * y) * (den * zp_inv p den)) by ring.
+    rewrite Hi'. unfold eqm. f_equal. ring. }
+  unfold e_on_curve, eaff_on_curve. cbn [Zp feqb fmul fadd f1]. apply Z.eqb_eq.
+  change (ep_p (ec c)) with p.
+  match goal with |- ?L mod _ = ?R mod _ => change (eqm p L R) end.
+  pose proof (mod_eqm p) as Hq. rewrite_strat (repeat (outermost Hq)). clear Hq.
+  subst a d. apply (eqm_shift p _ _ _ _ K). ring.
+Qed.
+
+Definition e_in_subgroup (c : ecodec) (P : ept) : Prop :=
+  e_mul (ec c) (ep_n (ec c)) P = (0, 1 mod ec_p c).
+
+Lemma e_torsion_free_spec c P : e_torsion_free c P = true <-> e_in_subgroup c P.
+Proof.
+  unfold e_torsion_free, e_in_subgroup. destruct (e_mul (ec c) (ep_n (ec c)) P) as [x y].
+  rewrite andb_true_iff, !Z.eqb_eq. split; [intros [-> ->]; reflexivity|intros [= -> ->]; auto].
+Qed.
+
+Lemma e_sub_spec c r P : e_sub c r = Some P -> r = Some P /\ e_in_subgroup c P.
+Proof.
+  unfold e_sub. destruct r as [Q|]; [|discriminate].
+  destruct (e_torsion_free c Q) eqn:T; [|discriminate].
+  intros [= <-]. split; [reflexivity|now apply e_torsion_free_spec].
+Qed.
+
+Theorem ed_dec_c_on_curve c bs P :
+  prime (ec_p c) -> ed_dec_c c bs = Some P -> e_on_curve (ec c) P = true.
+Proof.
+  intros Hp. unfold ed_dec_c. destruct (negb (Nat.eqb (length bs) (ec_len c))); [discriminate|]. cbv zeta.
+  destruct (e_from_y c _) as [[x y]|] eqn:E; [|discriminate].
+  intros [= <-]. apply (e_from_y_on_curve c _ _ Hp) in E. destruct E as [_ E].
+  destruct (x mod 2 =? _); [exact E|].
+  revert E. unfold e_on_curve, eaff_on_curve. cbn [Zp feqb fmul fadd f1].
+  rewrite !Z.eqb_eq. intros E. unfold negm.
+  etransitivity; [|etransitivity; [exact E|]]; zmod.
+Qed.
+
+Theorem ed_dec_u_on_curve c bs P :
+  ed_dec_u c bs = Some P -> e_on_curve (ec c) P = true.
+Proof.
+  unfold ed_dec_u. destruct (negb (Nat.eqb (length bs) (2 * ec_len c))); [discriminate|].
+  destruct (e_fp_set_bytes c (skipn _ bs)) as [x|]; [|discriminate].
+  destruct (e_fp_set_bytes c (firstn _ bs)) as [y|]; [|discriminate].
+  intros H. apply e_set_affine_on_curve in H. tauto.
+Qed.
+
+Theorem edp_dec_c_valid c bs P :
+  prime (ec_p c) -> edp_dec_c c bs = Some P -> e_on_curve (ec c) P = true /\ e_in_subgroup c P.
+Proof.
+  intros Hp H. apply e_sub_spec in H. destruct H as [H S]. split; [|exact S].
+  now apply (ed_dec_c_on_curve c bs).
+Qed.
+
+Theorem edp_dec_u_valid c bs P :
+  edp_dec_u c bs = Some P -> e_on_curve (ec c) P = true /\ e_in_subgroup c P.
+Proof.
+  intros H. apply e_sub_spec in H. destruct H as [H S]. split; [|exact S].
+  now apply (ed_dec_u_on_curve c bs).
+Qed.
+
+Lemma e_identity_on_curve c : e_on_curve (ec c) (0, 1 mod ec_p c) = true.
+Proof.
+  unfold e_on_curve, eaff_on_curve. cbn [Zp feqb fmul fadd f1]. apply Z.eqb_eq. zmod.
+Qed.
+
+(* curve25519: every accepted u-coordinate denotes a point of the Edwards form of the curve *)
+Theorem x_dec_c_on_curve c bs P :
+  prime (ec_p c) -> x_dec_c c bs = Some P -> e_on_curve (ec c) P = true.
+Proof.
+  intros Hp. unfold x_dec_c. destruct (negb (Nat.eqb (length bs) (ec_len c))); [discriminate|].
+  destruct (all_zero bs).
+  - intros [= <-]. apply e_identity_on_curve.
+  - destruct (e_fp_set_bytes c bs) as [u|]; [|discriminate]. cbv zeta.
+    destruct (addm (ec_p c) u (1 mod ec_p c) =? 0); [discriminate|].
+    intros H. apply (e_from_y_on_curve c _ _ Hp) in H. tauto.
+Qed.
+
+(* ---- wrong length / wrong flag bytes are refused ---------------------------------------------- *)
+
+Theorem sec1_wrong_length c bs :
+  (length bs <> S (wc_len c) -> sec1_dec_c c bs = None) /\
+  (length bs <> S (2 * wc_len c) -> sec1_dec_u c bs = None).
+Proof.
+  split; intros H; [unfold sec1_dec_c|unfold sec1_dec_u];
+    match goal with |- (if negb ?b then _ else _) = _ => destruct b eqn:E end; try reflexivity;
+    apply Nat.eqb_eq in E; contradiction.
+Qed.
+
+Theorem sec1_wrong_tag c tag r :
+  (tag <> 2 -> tag <> 3 -> sec1_dec_c c (tag :: r) = None) /\
+  (tag <> 4 -> sec1_dec_u c (tag :: r) = None).
+Proof.
+  split.
+  - intros H2 H3. unfold sec1_dec_c. destruct (negb _); [reflexivity|].
+    apply Z.eqb_neq in H2, H3. rewrite H2, H3. reflexivity.
+  - intros H4. unfold sec1_dec_u. destruct (negb (Nat.eqb _ _)); [reflexivity|].
+    apply Z.eqb_neq in H4. rewrite H4. reflexivity.
+Qed.
+
+Theorem pasta_wrong_length c bs :
+  (length bs <> wc_len c -> pasta_dec_c c bs = None) /\
+  (length bs <> (2 * wc_len c)%nat -> pasta_dec_u c bs = None).
+Proof.
+  split; intros H; [unfold pasta_dec_c|unfold pasta_dec_u];
+    match goal with |- (if negb ?b then _ else _) = _ => destruct b eqn:E end; try reflexivity;
+    apply Nat.eqb_eq in E; contradiction.
+Qed.
+
+Theorem blsg1_wrong_length c bs :
+  (length bs <> wc_len c -> blsg1_dec_c c bs = None) /\
+  (length bs <> (2 * wc_len c)%nat -> blsg1_dec_u c bs = None).
+Proof.
+  split; intros H; [unfold blsg1_dec_c|unfold blsg1_dec_u];
+    match goal with |- (if negb ?b then _ else _) = _ => destruct b eqn:E end; try reflexivity;
+    apply Nat.eqb_eq in E; contradiction.
+Qed.
+
+(* compressed BLS: the compression flag is required; infinity admits no sort flag and no payload *)
+Theorem blsg1_wrong_flags c b0 r :
+  (flagC b0 <> 1 -> blsg1_dec_c c (b0 :: r) = None) /\
+  (flagI b0 = 1 -> flagS b0 = 1 -> blsg1_dec_c c (b0 :: r) = None) /\
+  (flagI b0 = 1 -> (b0 mod 32 <> 0 \/ all_zero r = false) -> blsg1_dec_c c (b0 :: r) = None).
+Proof.
+  repeat split.
+  - intros H. unfold blsg1_dec_c. destruct (negb (Nat.eqb _ _)); [reflexivity|].
+    apply Z.eqb_neq in H. rewrite H. reflexivity.
+  - intros HI HS. unfold blsg1_dec_c. destruct (negb (Nat.eqb _ _)); [reflexivity|].
+    destruct (negb (flagC b0 =? 1)); [reflexivity|]. rewrite HI, HS. reflexivity.
+  - intros HI H. unfold blsg1_dec_c. destruct (negb (Nat.eqb _ _)); [reflexivity|].
+    destruct (negb (flagC b0 =? 1)); [reflexivity|]. rewrite HI. cbn [Z.eqb Pos.eqb].
+    destruct (flagS b0 =? 1); [reflexivity|].
+    destruct H as [H|H]; [apply Z.eqb_neq in H; rewrite H|rewrite H, andb_false_r]; reflexivity.
+Qed.
+
+Theorem ed_wrong_length c bs :
+  (length bs <> ec_len c -> ed_dec_c c bs = None) /\
+  (length bs <> (2 * ec_len c)%nat -> ed_dec_u c bs = None) /\
+  (length bs <> ec_len c -> x_dec_c c bs = None).
+Proof.
+  repeat split; intros H; [unfold ed_dec_c|unfold ed_dec_u|unfold x_dec_c];
+    match goal with |- (if negb ?b then _ else _) = _ => destruct b eqn:E end; try reflexivity;
+    apply Nat.eqb_eq in E; contradiction.
+Qed.
+
+(* ---- scalars / field elements: accepted bytes denote their value modulo the order -------------- *)
+
+Theorem fld_from_bytes_reduces q len bs v :
+  fld_from_bytes q len bs = Some v -> length bs = len /\ v = be_val bs mod q.
+Proof.
+  unfold fld_from_bytes. destruct (Nat.eqb (length bs) len) eqn:E; [|discriminate].
+  intros [= <-]. apply Nat.eqb_eq in E. auto.
+Qed.
+
+Lemma some_inj {A} (a b : A) : Some a = Some b -> a = b.
+Proof. congruence. Qed.
+
+Lemma firstn_skipn_val len l :
+  le_val l = le_val (firstn len l) + 256 ^ Z.of_nat (length (firstn len l)) * le_val (skipn len l).
+Proof. rewrite <- le_val_app, firstn_skipn. reflexivity. Qed.
+
+Lemma le_val_pad l k : le_val (l ++ zeros k) = le_val l.
+Proof. rewrite le_val_app, le_val_zeros. lia. Qed.
+
+Theorem fld_from_wide_reduces q len bs v :
+  fld_from_wide q len bs = Some v -> (length bs <= 2 * len)%nat /\ v = be_val bs mod q.
+Proof.
+  cbv beta delta [fld_from_wide]. destruct (Nat.leb (length bs) (2 * len)) eqn:E; [|discriminate].
+  apply Nat.leb_le in E. cbv zeta. intros H. apply some_inj in H. subst v. split; [exact E|].
+  set (le := rev bs ++ zeros (2 * len - length bs)).
+  assert (Hl : length le = (2 * len)%nat).
+  { unfold le. rewrite app_length, rev_length, zeros_length. lia. }
+  assert (Hv : be_val bs = le_val le) by (unfold be_val, le; now rewrite le_val_pad).
+  rewrite Hv, (firstn_skipn_val len le), firstn_length, Hl.
+  replace (Nat.min len (2 * len)) with len by lia.
+  replace (2 ^ (8 * Z.of_nat len)) with (256 ^ Z.of_nat len)
+    by (rewrite Z.pow_mul_r by lia; reflexivity).
+  unfold_m. zmod.
+Qed.
+
+Theorem fld25519_from_bytes_reduces p bs v :
+  fld25519_from_bytes p bs = Some v -> length bs = 32%nat /\ be_val bs < 2 ^ 255 /\ v = be_val bs mod p.
+Proof.
+  unfold fld25519_from_bytes. destruct (Nat.eqb (length bs) 32) eqn:E; [|discriminate].
+  cbv zeta. destruct (2 ^ 255 <=? be_val bs) eqn:E2; [discriminate|].
+  intros [= <-]. apply Nat.eqb_eq in E. apply Z.leb_gt in E2. auto.
+Qed.
+
+(* ================================================================================================
+   Part 2 — square roots and round trips
+   ================================================================================================ *)
+Require Import V.mc.NtFacts.
+
+Lemma eqm_refl_eq p a b : a = b -> eqm p a b.
+Proof. intros ->. reflexivity. Qed.
+
+Lemma pow_eqm p a b e : 0 < p -> eqm p a b -> eqm p (a ^ e) (b ^ e).
+Proof.
+  intros Hp H. unfold eqm in *.
+  rewrite (Zpower_mod a e p), (Zpower_mod b e p) by lia. now rewrite H.
+Qed.
+
+Lemma zp_pow_pos p a n : 0 < p ->
+  Pos.iter_op (fun x y => (x * y) mod p) n (a mod p) = (a ^ Zpos n) mod p.
+Proof.
+  intros Hp. revert a. induction n as [n IH|n IH|]; intros a; cbn [Pos.iter_op].
+  - rewrite <- Zmult_mod, IH.
+    rewrite Pos2Z.inj_xI. rewrite Z.pow_add_r, Z.pow_1_r, Z.pow_mul_r, Z.pow_2_r by lia.
+    rewrite Zmult_mod_idemp_r, Zmult_mod_idemp_l. f_equal. ring.
+  - rewrite <- Zmult_mod, IH.
+    rewrite Pos2Z.inj_xO, Z.pow_mul_r, Z.pow_2_r by lia. reflexivity.
+  - now rewrite Z.pow_1_r.
+Qed.
+
+Lemma zp_pow_spec p a e : 0 < p -> 0 <= e -> zp_pow p a e = (a ^ e) mod p.
+Proof.
+  intros Hp He. unfold zp_pow. destruct e as [|n|n]; [reflexivity|now apply zp_pow_pos|lia].
+Qed.
+
+(* x^(2^n) by repeated squaring, without reduction *)
+Fixpoint pw2 (x : Z) (n : nat) : Z := match n with O => x | S n' => pw2 (x * x) n' end.
+
+Lemma pw2_pow x n : pw2 x n = x ^ (2 ^ Z.of_nat n).
+Proof.
+  revert x; induction n as [|n IH]; intros x; cbn [pw2].
+  - change (2 ^ Z.of_nat 0) with 1. now rewrite Z.pow_1_r.
+  - rewrite IH, Nat2Z.inj_succ, Z.pow_succ_r by lia.
+    rewrite Z.pow_mul_r by (try apply Z.pow_nonneg; lia). now rewrite Z.pow_2_r.
+Qed.
+
+Lemma pw2_S x n : pw2 x (S n) = pw2 x n * pw2 x n.
+Proof.
+  revert x; induction n as [|n IH]; intros x; [reflexivity|].
+  change (pw2 x (S (S n))) with (pw2 (x * x) (S n)). rewrite IH. reflexivity.
+Qed.
+
+Lemma pw2_mul x y n : pw2 (x * y) n = pw2 x n * pw2 y n.
+Proof.
+  revert x y; induction n as [|n IH]; intros x y; cbn [pw2]; [reflexivity|].
+  rewrite <- IH. f_equal. ring.
+Qed.
+
+Lemma pw2_eqm p x y n : eqm p x y -> eqm p (pw2 x n) (pw2 y n).
+Proof.
+  revert x y; induction n as [|n IH]; intros x y H; cbn [pw2]; [exact H|].
+  apply IH. now rewrite H.
+Qed.
+
+Lemma sq_iter_pw2 p n t : eqm p (sq_iter p n t) (pw2 t n).
+Proof.
+  revert t; induction n as [|n IH]; intros t; cbn [sq_iter pw2]; [reflexivity|].
+  rewrite IH. apply pw2_eqm. unfold mulm. apply mod_eqm.
+Qed.
+
+Lemma sq_iter_range p n t : 0 < p -> 0 <= t < p -> 0 <= sq_iter p n t < p.
+Proof.
+  intros Hp. revert t; induction n as [|n IH]; intros t Ht; cbn [sq_iter]; [exact Ht|].
+  apply IH. unfold mulm. apply Z.mod_pos_bound. lia.
+Qed.
+
+(* in a prime field x^2 = 1 has only the roots 1 and -1 *)
+Lemma prime_sq_one p b : prime p -> 0 <= b < p -> eqm p (b * b) 1 -> b = 1 \/ b = p - 1.
+Proof.
+  intros Hp Hb H. pose proof (prime_ge_2 _ Hp).
+  assert (D : (p | (b - 1) * (b + 1))).
+  { apply Z.mod_divide; [lia|]. unfold eqm in H.
+    replace ((b - 1) * (b + 1)) with (b * b - 1) by ring.
+    rewrite Zminus_mod, H, Z.sub_diag. apply Zmod_0_l. }
+  apply prime_mult in D; [|exact Hp]. destruct D as [[k D]|[k D]].
+  - left. assert (k = 0) by nia. nia.
+  - right. assert (k = 1 \/ k = 0) by nia. nia.
+Qed.
+
+Lemma prime_sq_eq p s y : prime p -> 0 <= s < p -> 0 <= y < p -> eqm p (s * s) (y * y) ->
+  s = y \/ s = negm p y.
+Proof.
+  intros Hp Hs Hy H. pose proof (prime_ge_2 _ Hp).
+  assert (D : (p | (s - y) * (s + y))).
+  { apply Z.mod_divide; [lia|]. unfold eqm in H.
+    replace ((s - y) * (s + y)) with (s * s - y * y) by ring.
+    rewrite Zminus_mod, H, Z.sub_diag. apply Zmod_0_l. }
+  apply prime_mult in D; [|exact Hp]. destruct D as [[k D]|[k D]].
+  - left. assert (k = 0) by nia. nia.
+  - right. unfold negm. assert (k = 1 \/ k = 0) by nia.
+    apply Z.mod_unique with (q := if y =? 0 then 0 else -1); [lia|].
+    destruct (y =? 0) eqn:E; [apply Z.eqb_eq in E|apply Z.eqb_neq in E]; nia.
+Qed.
+
+(* ---- Tonelli–Shanks as coded is complete ------------------------------------------------------- *)
+
+Section TonelliShanks.
+  Variable p : Z.
+  Variable e : nat.
+  Variable rou : Z.
+  Hypothesis Hp : prime p.
+  (* p - 1 = 2^e * m with m = 2g+1 odd, g the progenitor exponent — checked per curve *)
+  Hypothesis He : (1 <= e)%nat.
+  Hypothesis Hm : p - 1 = 2 ^ Z.of_nat e * (2 * ts_progenitor p e + 1).
+  Hypothesis Hg : 0 <= ts_progenitor p e.
+  (* rou is a primitive 2^e-th root of unity: rou^(2^(e-1)) = -1 — checked per curve *)
+  Hypothesis Hrou_c : sq_iter p (e - 1) rou = p - 1.
+
+  Let Hp2 : 2 <= p := prime_ge_2 _ Hp.
+
+  Lemma ts_p_odd : 3 <= p.
+  Proof.
+    destruct e as [|k]; [lia|].
+    assert (H : p - 1 = 2 * (2 ^ Z.of_nat k * (2 * ts_progenitor p (S k) + 1))).
+    { rewrite Hm at 1. rewrite Nat2Z.inj_succ, Z.pow_succ_r by lia. ring. }
+    set (N := 2 ^ Z.of_nat k * _) in H. lia.
+  Qed.
+
+  Lemma Hrou : eqm p (pw2 rou (e - 1)) (-1).
+  Proof.
+    rewrite <- sq_iter_pw2, Hrou_c. unfold eqm.
+    replace (p - 1) with (-1 + 1 * p) by ring. apply Z_mod_plus_full.
+  Qed.
+
+  Lemma ts_p_odd2 : p mod 2 = 1.
+  Proof.
+    destruct e as [|k]; [lia|].
+    assert (H : p - 1 = 2 * (2 ^ Z.of_nat k * (2 * ts_progenitor p (S k) + 1))).
+    { rewrite Hm at 1. rewrite Nat2Z.inj_succ, Z.pow_succ_r by lia. ring. }
+    set (N := 2 ^ Z.of_nat k * _) in H.
+    replace p with (1 + N * 2) by lia. rewrite Z_mod_plus_full. reflexivity.
+  Qed.
+
+  Lemma ts_loop_zero k t z : ts_loop p k 0 t z = 0.
+  Proof.
+    revert t z; induction k as [|k IH]; intros t z; [reflexivity|].
+    cbn [ts_loop]. destruct k as [|k]; [reflexivity|]. cbv zeta.
+    assert (mulm p 0 z = 0) by (unfold mulm; now rewrite Z.mul_0_l, Zmod_0_l).
+    destruct (sq_iter p k t =? 1 mod p); [apply IH|rewrite H; apply IH].
+  Qed.
+
+  (* loop invariant: s^2 = t v, t^(2^(k-1)) = 1, z^(2^(k-1)) = -1 *)
+  Lemma ts_loop_inv v k s t z :
+    0 <= t < p ->
+    eqm p (s * s) (t * v) ->
+    eqm p (pw2 t k) 1 ->
+    eqm p (pw2 z k) (-1) ->
+    let r := ts_loop p (S k) s t z in eqm p (r * r) v.
+  Proof.
+    revert s t z; induction k as [|k IH]; intros s t z Ht H1 H2 H3; cbv zeta.
+    - cbn [ts_loop]. cbn [pw2] in H2. rewrite H1, H2. apply eqm_refl_eq. ring.
+    - change (ts_loop p (S (S k)) s t z) with
+        (let b := sq_iter p k t in
+         let isone := b =? 1 mod p in
+         let s' := if isone then s else mulm p s z in
+         let z' := mulm p z z in
+         let t' := if isone then t else mulm p t z' in
+         ts_loop p (S k) s' t' z').
+      cbv zeta.
+      assert (Hz' : eqm p (pw2 (mulm p z z) k) (-1)).
+      { rewrite <- H3. change (pw2 z (S k)) with (pw2 (z * z) k). apply pw2_eqm. apply mod_eqm. }
+      assert (Hb : eqm p (sq_iter p k t) (pw2 t k)) by apply sq_iter_pw2.
+      assert (Hbb : eqm p (sq_iter p k t * sq_iter p k t) 1).
+      { rewrite Hb, <- pw2_S. exact H2. }
+      pose proof (sq_iter_range p k t ltac:(lia) Ht) as Hbr.
+      destruct (prime_sq_one p _ Hp Hbr Hbb) as [B|B].
+      + rewrite B, (one_mod p) by lia. cbn [Z.eqb Pos.eqb].
+        apply IH; [exact Ht|exact H1| |exact Hz'].
+        rewrite <- Hb, B. reflexivity.
+      + assert (Hne : (sq_iter p k t =? 1 mod p) = false).
+        { rewrite (one_mod p) by lia. apply Z.eqb_neq. pose proof ts_p_odd. lia. }
+        rewrite Hne. apply IH.
+        * unfold mulm. apply Z.mod_pos_bound. lia.
+        * unfold mulm. repeat rewrite (mod_eqm p).
+          replace (s * z * (s * z)) with (s * s * (z * z)) by ring. rewrite H1.
+          apply eqm_refl_eq. ring.
+        * unfold mulm at 1. rewrite (pw2_eqm p _ (t * mulm p z z) k (mod_eqm p _)).
+          rewrite pw2_mul, Hz', <- Hb, B. unfold eqm.
+          replace ((p - 1) * -1) with (1 + (-1) * p) by ring. now rewrite Z_mod_plus_full.
+        * exact Hz'.
+  Qed.
+
+  Theorem ts_sqrt_complete w :
+    0 <= w < p -> exists s, ts_sqrt p e rou (mulm p w w) = Some s.
+  Proof.
+    intros Hw. set (v := mulm p w w). set (g := ts_progenitor p e) in *.
+    assert (Hv : 0 <= v < p) by (unfold v, mulm; apply Z.mod_pos_bound; lia).
+    unfold ts_sqrt. cbv zeta. fold g.
+    set (y := zp_pow p v g). set (s := mulm p y v). set (t := mulm p s y).
+    set (r := ts_loop p e s t rou).
+    assert (R : eqm p (r * r) v).
+    { destruct (Z.eq_dec w 0) as [W|W].
+      - (* v = 0: s = 0 and the loop keeps it *)
+        assert (v = 0) by (unfold v, mulm; subst w; reflexivity).
+        assert (s = 0) by (unfold s, mulm; subst v; rewrite H, Z.mul_0_r; apply Zmod_0_l).
+        unfold r. rewrite H0, ts_loop_zero, H. reflexivity.
+      - assert (Ek : e = S (e - 1)) by lia. set (k := (e - 1)%nat) in *.
+        unfold r. rewrite Ek.
+        assert (Hy : eqm p y (v ^ g)) by (unfold y; rewrite zp_pow_spec by lia; apply mod_eqm).
+        assert (Hs : eqm p s (v ^ (g + 1))).
+        { unfold s, mulm. rewrite (mod_eqm p), Hy, Z.pow_add_r, Z.pow_1_r by lia. reflexivity. }
+        assert (Ht : eqm p t (v ^ (2 * g + 1))).
+        { unfold t, mulm. rewrite (mod_eqm p), Hs, Hy.
+          rewrite <- Z.pow_add_r by lia. apply eqm_refl_eq. f_equal. lia. }
+        apply ts_loop_inv.
+        + unfold t, mulm. apply Z.mod_pos_bound. lia.
+        + rewrite Hs, Ht. rewrite <- Z.pow_add_r by lia.
+          replace (v ^ (2 * g + 1) * v) with (v ^ (2 * g + 1) * v ^ 1) by (now rewrite Z.pow_1_r).
+          rewrite <- Z.pow_add_r by lia. apply eqm_refl_eq. f_equal. lia.
+        + (* t^(2^k) = v^(m 2^k) = w^(m 2^(k+1)) = w^(p-1) = 1 *)
+          rewrite (pw2_eqm p _ _ k Ht), pw2_pow.
+          rewrite <- Z.pow_mul_r by (try apply Z.pow_nonneg; lia).
+          assert (Hvw : eqm p v (w * w)) by (unfold v, mulm; apply mod_eqm).
+          rewrite (pow_eqm p _ _ _ ltac:(lia) Hvw).
+          rewrite <- Z.pow_2_r, <- Z.pow_mul_r by (try apply Z.mul_nonneg_nonneg; try apply Z.pow_nonneg; lia).
+          replace (2 * ((2 * g + 1) * 2 ^ Z.of_nat k)) with (p - 1).
+          2:{ rewrite Hm. fold g. rewrite Ek at 1. rewrite Nat2Z.inj_succ, Z.pow_succ_r by lia. ring. }
+          unfold eqm. rewrite Z_fermat; [symmetry; apply one_mod; lia|exact Hp|].
+          apply Zgcd_1_rel_prime. apply rel_prime_le_prime; [exact Hp|lia].
+        + exact Hrou. }
+    unfold eqm in R. unfold mulm at 1.
+    assert (E : (r * r) mod p =? v mod p = true) by (apply Z.eqb_eq; exact R).
+    rewrite E. eexists; reflexivity.
+  Qed.
+End TonelliShanks.
+
+Lemma firstn_repeat' {A} (a : A) n k : firstn n (repeat a k) = repeat a (Nat.min n k).
+Proof.
+  revert k; induction n as [|n IH]; intros [|k]; cbn [firstn repeat Nat.min]; try reflexivity.
+  now rewrite IH.
+Qed.
+
+Lemma skipn_repeat' {A} (a : A) n k : skipn n (repeat a k) = repeat a (k - n).
+Proof.
+  revert k; induction n as [|n IH]; intros [|k]; cbn [skipn repeat Nat.sub]; try reflexivity.
+  apply IH.
+Qed.
+
+Lemma ts_loop_range p k s t z : 0 < p -> 0 <= s < p -> 0 <= ts_loop p k s t z < p.
+Proof.
+  intros Hp. revert s t z; induction k as [|k IH]; intros s t z Hs; [exact Hs|].
+  cbn [ts_loop]. destruct k as [|k]; [exact Hs|]. cbv zeta.
+  apply IH. destruct (_ =? _); [exact Hs|]. unfold mulm. apply Z.mod_pos_bound. lia.
+Qed.
+
+Lemma ts_sqrt_range p e rou v s : 0 < p -> ts_sqrt p e rou v = Some s -> 0 <= s < p.
+Proof.
+  intros Hp. unfold ts_sqrt. cbv zeta.
+  match goal with |- (if ?b then _ else _) = _ -> _ => destruct b end; [|discriminate].
+  intros [= <-]. apply ts_loop_range; [exact Hp|]. unfold mulm. apply Z.mod_pos_bound. lia.
+Qed.
+
+Lemma negm_invol p y : 0 < p -> 0 <= y < p -> negm p (negm p y) = y.
+Proof.
+  intros Hp Hy. unfold negm.
+  replace (- (- y mod p)) with (y + (- ((- y mod p) + y))) by ring.
+  assert (D : (- y mod p + y) mod p = 0).
+  { rewrite Zplus_mod_idemp_l. replace (- y + y) with 0 by ring. apply Zmod_0_l. }
+  apply Z.mod_divide in D; [|lia]. destruct D as [k D].
+  rewrite D. replace (y + - (k * p)) with (y + (- k) * p) by ring.
+  rewrite Z_mod_plus_full. apply Z.mod_small. exact Hy.
+Qed.
+
+Lemma negm_nz p y : 0 < y < p -> negm p y = p - y.
+Proof.
+  intros Hy. unfold negm. symmetry. apply Z.mod_unique with (q := -1); lia.
+Qed.
+
+Lemma negm_0 p : negm p 0 = 0.
+Proof. unfold negm. apply Zmod_0_l. Qed.
+
+Lemma parity_flip p y : p mod 2 = 1 -> 0 < y < p -> (p - y) mod 2 <> y mod 2.
+Proof.
+  intros Hp Hy E.
+  assert (H : (p - y + y) mod 2 = (y + y) mod 2) by (rewrite Zplus_mod, E, <- Zplus_mod; reflexivity).
+  replace (p - y + y) with p in H by ring. rewrite Hp in H.
+  replace (y + y) with (0 + y * 2) in H by ring. rewrite Z_mod_plus_full in H. discriminate.
+Qed.
+
+(* ---- round trips: short Weierstrass ------------------------------------------------------------ *)
+
+(* what the theorems assume about a codec record: the modulus is prime, the Tonelli–Shanks
+   constants are the right ones for it (three decidable equations, evaluated per curve), the
+   coordinate size fits *)
+Record wcodec_ok (c : wcodec) : Prop := mk_wcodec_ok {
+  ok_prime : prime (wc_p c);
+  ok_e : (1 <= wc_e c)%nat;
+  ok_m : wc_p c - 1 = 2 ^ Z.of_nat (wc_e c) * (2 * ts_progenitor (wc_p c) (wc_e c) + 1);
+  ok_g : 0 <= ts_progenitor (wc_p c) (wc_e c);
+  ok_rou : sq_iter (wc_p c) (wc_e c - 1) (wc_rou c) = wc_p c - 1;
+  ok_len : wc_p c <= 256 ^ Z.of_nat (wc_len c)
+}.
+
+Definition w_canon (c : wcodec) (P : wpt) : Prop :=
+  match P with None => True | Some (x, y) => 0 <= x < wc_p c /\ 0 <= y < wc_p c end.
+
+Section WRoundTrip.
+  Variable c : wcodec.
+  Hypothesis OK : wcodec_ok c.
+  Let p := wc_p c.
+  Let Hp : prime p := ok_prime c OK.
+  Let Hp2 : 2 <= p := prime_ge_2 _ Hp.
+  Let Hodd : p mod 2 = 1 := ts_p_odd2 p (wc_e c) (wc_rou c) (ok_e c OK) (ok_m c OK) (ok_g c OK) (ok_rou c OK).
+
+  Lemma on_curve_rhs x y : w_on_curve (wc c) (Some (x, y)) = true -> wc_rhs c x = mulm p y y.
+  Proof.
+    unfold w_on_curve, on_curve. cbn [Zp feqb fmul fadd]. rewrite Z.eqb_eq. intros E.
+    unfold wc_rhs, p, wc_p. unfold_m. rewrite E. zmod.
+  Qed.
+
+  Lemma w_from_x_complete x y :
+    w_on_curve (wc c) (Some (x, y)) = true -> 0 <= y < p ->
+    w_from_x c x (y mod 2) = Some (Some (x, y)).
+  Proof.
+    intros Hc Hy. unfold w_from_x. rewrite (on_curve_rhs x y Hc).
+    destruct (ts_sqrt_complete p (wc_e c) (wc_rou c) Hp (ok_e c OK) (ok_m c OK) (ok_g c OK) (ok_rou c OK) y Hy)
+      as [s Hs].
+    unfold wc_sqrt. fold p. rewrite Hs.
+    assert (Hp0 : 0 < p) by lia. pose proof (ts_sqrt_range p _ _ _ _ Hp0 Hs) as Hr.
+    apply ts_sqrt_sound in Hs.
+    assert (E : eqm p (s * s) (y * y)).
+    { unfold eqm. unfold mulm in Hs. rewrite Hs. apply Zmod_mod. }
+    destruct (prime_sq_eq p s y Hp Hr Hy E) as [-> | ->].
+    - rewrite Z.eqb_refl. reflexivity.
+    - destruct (Z.eq_dec y 0) as [->|Hy0].
+      + rewrite negm_0. reflexivity.
+      + rewrite (negm_nz p y) by lia.
+        destruct ((p - y) mod 2 =? y mod 2) eqn:Epar.
+        * apply Z.eqb_eq in Epar. exfalso. revert Epar. apply parity_flip; [exact Hodd|lia].
+        * rewrite <- (negm_nz p y) by lia. rewrite negm_invol by lia. reflexivity.
+  Qed.
+
+  Lemma tag_ok y : ((2 + y mod 2 =? 2) || (2 + y mod 2 =? 3)) = true /\ (2 + y mod 2) mod 2 = y mod 2.
+  Proof.
+    pose proof (Z.mod_pos_bound y 2 ltac:(lia)) as B.
+    assert (y mod 2 = 0 \/ y mod 2 = 1) as [-> | ->] by lia; split; reflexivity.
+  Qed.
+
+  Theorem sec1_roundtrip_c P :
+    w_on_curve (wc c) P = true -> w_canon c P ->
+    (forall y, P <> Some (0, y)) ->
+    sec1_dec_c c (sec1_enc_c c P) = Some P.
+  Proof.
+    intros Hc Hr Hx. pose proof (ok_len c OK) as Hl. fold p in Hl. destruct P as [[x y]|].
+    - cbn [w_canon] in Hr. destruct Hr as [Hxr Hyr]. fold p in Hxr, Hyr.
+      unfold sec1_enc_c, sec1_dec_c. cbn [length]. rewrite be_enc_length, Nat.eqb_refl. cbn [negb].
+      destruct (tag_ok y) as [T1 T2]. rewrite T1, T2. cbn [negb].
+      rewrite be_val_be_enc by lia.
+      fold p. rewrite Z.mod_small by lia.
+      destruct (x =? 0) eqn:E0; [apply Z.eqb_eq in E0; subst x; exfalso; now apply (Hx y)|].
+      now apply w_from_x_complete.
+    - unfold sec1_enc_c, sec1_dec_c. cbn [length]. rewrite zeros_length, Nat.eqb_refl. cbn [negb Z.eqb Pos.eqb orb].
+      rewrite be_val_zeros, Zmod_0_l. reflexivity.
+  Qed.
+
+  (* the reserved encodings: a point with x = 0 decodes to the identity instead *)
+  Theorem sec1_x0_collides y :
+    sec1_dec_c c (sec1_enc_c c (Some (0, y))) = Some None.
+  Proof.
+    unfold sec1_enc_c, sec1_dec_c. cbn [length]. rewrite be_enc_length, Nat.eqb_refl. cbn [negb].
+    destruct (tag_ok y) as [T1 T2]. rewrite T1. cbn [negb].
+    rewrite be_val_be_enc by (split; [lia|apply pow256_pos]).
+    rewrite Zmod_0_l. reflexivity.
+  Qed.
+
+  Theorem sec1_roundtrip_u P :
+    w_on_curve (wc c) P = true -> w_canon c P -> P <> Some (0, 0) ->
+    sec1_dec_u c (sec1_enc_u c P) = Some P.
+  Proof.
+    intros Hc Hr Hx. pose proof (ok_len c OK) as Hl. fold p in Hl. destruct P as [[x y]|].
+    - cbn [w_canon] in Hr. destruct Hr as [Hxr Hyr]. fold p in Hxr, Hyr.
+      unfold sec1_enc_u, sec1_dec_u. cbn [length]. rewrite app_length, !be_enc_length.
+      replace (wc_len c + wc_len c)%nat with (2 * wc_len c)%nat by lia.
+      rewrite Nat.eqb_refl. cbn [negb Z.eqb Pos.eqb].
+      rewrite firstn_app_len, skipn_app_len by apply be_enc_length.
+      rewrite !be_val_be_enc by lia. fold p. rewrite !Z.mod_small by lia.
+      destruct ((x =? 0) && (y =? 0)) eqn:E0.
+      + apply andb_true_iff in E0. rewrite !Z.eqb_eq in E0. destruct E0; subst. now elim Hx.
+      + unfold w_set_affine. fold p. rewrite (on_curve_rhs x y Hc), Z.eqb_refl. reflexivity.
+    - unfold sec1_enc_u, sec1_dec_u. cbn [length]. rewrite zeros_length, Nat.eqb_refl. cbn [negb Z.eqb Pos.eqb].
+      assert (Z0 : forall n, be_val (firstn n (zeros (2 * wc_len c))) = 0 /\ be_val (skipn n (zeros (2 * wc_len c))) = 0).
+      { intros n. unfold zeros. rewrite firstn_repeat', skipn_repeat'. split; apply be_val_zeros. }
+      destruct (Z0 (wc_len c)) as [-> ->]. rewrite Zmod_0_l. reflexivity.
+  Qed.
+End WRoundTrip.
+
+(* injectivity off the reserved encodings follows from the round trip *)
+Lemma roundtrip_injective {A B} (enc : A -> B) (dec : B -> option A) (good : A -> Prop) :
+  (forall P, good P -> dec (enc P) = Some P) ->
+  forall P Q, good P -> good Q -> enc P = enc Q -> P = Q.
+Proof.
+  intros H P Q HP HQ E. pose proof (H P HP) as H1. rewrite E, (H Q HQ) in H1. congruence.
+Qed.
+
+Definition sec1_good_c (c : wcodec) (P : wpt) : Prop :=
+  w_on_curve (wc c) P = true /\ w_canon c P /\ (forall y, P <> Some (0, y)).
+Definition sec1_good_u (c : wcodec) (P : wpt) : Prop :=
+  w_on_curve (wc c) P = true /\ w_canon c P /\ P <> Some (0, 0).
+
+Theorem sec1_encode_injective c : wcodec_ok c ->
+  (forall P Q, sec1_good_c c P -> sec1_good_c c Q -> sec1_enc_c c P = sec1_enc_c c Q -> P = Q) /\
+  (forall P Q, sec1_good_u c P -> sec1_good_u c Q -> sec1_enc_u c P = sec1_enc_u c Q -> P = Q).
+Proof.
+  intros OK. split.
+  - apply (roundtrip_injective (sec1_enc_c c) (sec1_dec_c c)).
+    intros P (H1 & H2 & H3). now apply sec1_roundtrip_c.
+  - apply (roundtrip_injective (sec1_enc_u c) (sec1_dec_u c)).
+    intros P (H1 & H2 & H3). now apply sec1_roundtrip_u.
+Qed.
+
+(* when b is a quadratic non-residue (Euler: b^((p-1)/2) = -1) no point has x = 0, so the
+   compressed round trip holds for every point of the curve *)
+Lemma no_point_x0 c y : wcodec_ok c ->
+  euler (wc_p c) (wp_b (wc c)) = wc_p c - 1 ->
+  0 <= y < wc_p c -> w_on_curve (wc c) (Some (0, y)) = true -> False.
+Proof.
+  intros OK He Hy Hc. pose proof (ok_prime c OK) as Hp. pose proof (prime_ge_2 _ Hp) as Hp2.
+  pose proof (ts_p_odd2 _ _ _ (ok_e c OK) (ok_m c OK) (ok_g c OK) (ok_rou c OK)) as Hodd.
+  set (p := wc_p c) in *. set (b := wp_b (wc c)) in *.
+  assert (Hh : 0 <= (p - 1) / 2) by (apply Z.div_pos; lia).
+  unfold euler in He. rewrite zp_pow_spec in He by lia.
+  assert (Hb : eqm p b (y * y)).
+  { revert Hc. unfold w_on_curve, on_curve. cbn [Zp feqb fmul fadd]. rewrite Z.eqb_eq.
+    intros E. unfold eqm, p, b, wc_p. symmetry. rewrite E. zmod. }
+  assert (E1 : eqm p (b ^ ((p - 1) / 2)) (y ^ (p - 1))).
+  { rewrite (pow_eqm p _ _ _ ltac:(lia) Hb), <- Z.pow_2_r, <- Z.pow_mul_r by lia.
+    apply eqm_refl_eq. f_equal.
+    pose proof (Z.div_mod (p - 1) 2 ltac:(lia)) as D.
+    assert ((p - 1) mod 2 = 0).
+    { replace (p - 1) with (p + (-1)) by ring. rewrite Zplus_mod, Hodd. reflexivity. }
+    lia. }
+  unfold eqm in E1. rewrite He in E1.
+  assert (Hp3 : p <> 2) by (intros E; rewrite E in Hodd; discriminate).
+  destruct (Z.eq_dec y 0) as [->|Hy0].
+  - rewrite Z.pow_0_l, Zmod_0_l in E1 by lia. lia.
+  - rewrite Z_fermat in E1; [lia|exact Hp|].
+    apply Zgcd_1_rel_prime. apply rel_prime_le_prime; [exact Hp|lia].
+Qed.
+
+Theorem sec1_roundtrip_c_all c P : wcodec_ok c ->
+  euler (wc_p c) (wp_b (wc c)) = wc_p c - 1 ->
+  w_on_curve (wc c) P = true -> w_canon c P ->
+  sec1_dec_c c (sec1_enc_c c P) = Some P.
+Proof.
+  intros OK He Hc Hr. apply sec1_roundtrip_c; try assumption.
+  intros y ->. cbn [w_canon] in Hr. apply (no_point_x0 c y OK He); tauto.
+Qed.
+
+(* ---- pasta ------------------------------------------------------------------------------------- *)
+
+Section PastaRoundTrip.
+  Variable c : wcodec.
+  Hypothesis OK : wcodec_ok c.
+  Hypothesis Hlen1 : (1 <= wc_len c)%nat.
+  Hypothesis Htop : wc_p c <= top_bit c.          (* the modulus leaves the top bit free *)
+  Let p := wc_p c.
+  Let Hp2 : 2 <= p := prime_ge_2 _ (ok_prime c OK).
+
+  Lemma top_double : 2 * top_bit c = 256 ^ Z.of_nat (wc_len c).
+  Proof.
+    unfold top_bit. replace (256 ^ Z.of_nat (wc_len c)) with (2 ^ (8 * Z.of_nat (wc_len c))).
+    2:{ rewrite Z.pow_mul_r by lia. reflexivity. }
+    replace (8 * Z.of_nat (wc_len c)) with (Z.succ (8 * Z.of_nat (wc_len c) - 1)) at 2 by lia.
+    rewrite Z.pow_succ_r by lia. reflexivity.
+  Qed.
+
+  Lemma top_pos : 0 < top_bit c.
+  Proof. unfold top_bit. apply Z.pow_pos_nonneg; lia. Qed.
+
+  Theorem pasta_roundtrip_c P :
+    w_on_curve (wc c) P = true -> w_canon c P ->
+    (forall y, P = Some (0, y) -> y mod 2 = 1) ->
+    pasta_dec_c c (pasta_enc_c c P) = Some P.
+  Proof.
+    intros Hc Hr Hx. pose proof top_double as TD. pose proof top_pos as TP. fold p in Htop.
+    destruct P as [[x y]|].
+    - cbn [w_canon] in Hr. destruct Hr as [Hxr Hyr]. fold p in Hxr, Hyr.
+      unfold pasta_enc_c, pasta_dec_c. rewrite le_enc_length, Nat.eqb_refl. cbn [negb]. cbv zeta.
+      pose proof (Z.mod_pos_bound y 2 ltac:(lia)) as B.
+      rewrite le_val_le_enc by nia.
+      assert (Hs : (x + y mod 2 * top_bit c) / top_bit c = y mod 2).
+      { rewrite Z.div_add by lia. rewrite Z.div_small by lia. lia. }
+      assert (Hm : (x + y mod 2 * top_bit c) mod top_bit c = x).
+      { rewrite Z_mod_plus_full. apply Z.mod_small. lia. }
+      rewrite Hs, Hm. fold p. rewrite Z.mod_small by lia.
+      destruct ((x =? 0) && (y mod 2 =? 0)) eqn:E0.
+      + apply andb_true_iff in E0. rewrite !Z.eqb_eq in E0. destruct E0 as [-> E0].
+        specialize (Hx y eq_refl). lia.
+      + now apply w_from_x_complete.
+    - unfold pasta_enc_c, pasta_dec_c. rewrite zeros_length, Nat.eqb_refl. cbn [negb]. cbv zeta.
+      rewrite le_val_zeros, Z.div_0_l, !Zmod_0_l by lia. reflexivity.
+  Qed.
+End PastaRoundTrip.
+
+Lemma fix_parity p s x : p mod 2 = 1 -> 0 <= x < p -> s = x \/ s = negm p x ->
+  (if s mod 2 =? x mod 2 then s else negm p s) = x.
+Proof.
+  intros Hodd Hx [-> | ->].
+  - now rewrite Z.eqb_refl.
+  - destruct (Z.eq_dec x 0) as [->|Hx0]; [now rewrite negm_0|].
+    rewrite (negm_nz p x) by lia.
+    destruct ((p - x) mod 2 =? x mod 2) eqn:Epar.
+    + apply Z.eqb_eq in Epar. exfalso. revert Epar. apply parity_flip; [exact Hodd|lia].
+    + rewrite <- (negm_nz p x) by lia. apply negm_invol; lia.
+Qed.
+
+Theorem pasta_roundtrip_u c P : wcodec_ok c ->
+  w_on_curve (wc c) P = true -> w_canon c P -> P <> Some (0, 0) ->
+  pasta_dec_u c (pasta_enc_u c P) = Some P.
+Proof.
+  intros OK Hc Hr Hx. pose proof (ok_len c OK) as Hl. pose proof (prime_ge_2 _ (ok_prime c OK)) as Hp2.
+  destruct P as [[x y]|].
+  - cbn [w_canon] in Hr. destruct Hr as [Hxr Hyr].
+    unfold pasta_enc_u, pasta_dec_u. rewrite app_length, !le_enc_length.
+    replace (wc_len c + wc_len c)%nat with (2 * wc_len c)%nat by lia.
+    rewrite Nat.eqb_refl. cbn [negb]. cbv zeta.
+    rewrite firstn_app_len, skipn_app_len by apply le_enc_length.
+    rewrite !le_val_le_enc by lia. rewrite !Z.mod_small by lia.
+    destruct ((x =? 0) && (y =? 0)) eqn:E0.
+    + apply andb_true_iff in E0. rewrite !Z.eqb_eq in E0. destruct E0; subst. now elim Hx.
+    + unfold w_set_affine. rewrite (on_curve_rhs c x y Hc), Z.eqb_refl. reflexivity.
+  - unfold pasta_enc_u, pasta_dec_u. rewrite zeros_length, Nat.eqb_refl. cbn [negb]. cbv zeta.
+    unfold zeros. rewrite firstn_repeat', skipn_repeat'. fold (zeros (Nat.min (wc_len c) (2 * wc_len c))).
+    fold (zeros (2 * wc_len c - wc_len c)). rewrite !le_val_zeros, Zmod_0_l. reflexivity.
+Qed.
+
+(* ---- edwards25519 ------------------------------------------------------------------------------ *)
+
+Record ecodec_ok (c : ecodec) : Prop := mk_ecodec_ok {
+  eok_prime : prime (ec_p c);
+  eok_e : (1 <= ec_e c)%nat;
+  eok_m : ec_p c - 1 = 2 ^ Z.of_nat (ec_e c) * (2 * ts_progenitor (ec_p c) (ec_e c) + 1);
+  eok_g : 0 <= ts_progenitor (ec_p c) (ec_e c);
+  eok_rou : sq_iter (ec_p c) (ec_e c - 1) (ec_rou c) = ec_p c - 1;
+  eok_len1 : (1 <= ec_len c)%nat;
+  eok_top : ec_p c <= e_top c;
+  eok_ad : (ep_a (ec c) - ep_d (ec c)) mod ec_p c <> 0
+}.
+
+Definition e_canon (c : ecodec) (P : ept) : Prop :=
+  0 <= fst P < ec_p c /\ 0 <= snd P < ec_p c.
+
+Section ERoundTrip.
+  Variable c : ecodec.
+  Hypothesis OK : ecodec_ok c.
+  Let p := ec_p c.
+  Let a := ep_a (ec c).
+  Let d := ep_d (ec c).
+  Let Hp : prime p := eok_prime c OK.
+  Let Hp2 : 2 <= p := prime_ge_2 _ Hp.
+  Let Hodd : p mod 2 = 1 :=
+    ts_p_odd2 p (ec_e c) (ec_rou c) (eok_e c OK) (eok_m c OK) (eok_g c OK) (eok_rou c OK).
+
+  Lemma e_curve_eq x y : e_on_curve (ec c) (x, y) = true ->
+    eqm p (x * x * (a - d * (y * y))) (1 - y * y).
+  Proof.
+    unfold e_on_curve, eaff_on_curve. cbn [Zp feqb fmul fadd f1]. rewrite Z.eqb_eq.
+    change (ep_p (ec c)) with p. change (ep_a (ec c)) with a. change (ep_d (ec c)) with d.
+    intros E.
+    assert (E' : eqm p (a * (x * x) + y * y) (1 + d * (x * x * (y * y)))).
+    { unfold eqm. etransitivity; [|etransitivity; [exact E|]]; zmod. }
+    apply (eqm_shift p _ _ _ _ E'). ring.
+  Qed.
+
+  Lemma e_from_y_complete x y :
+    e_on_curve (ec c) (x, y) = true -> 0 <= x < p -> 0 <= y < p ->
+    exists s, e_from_y c y = Some (s, y) /\ (s = x \/ s = negm p x).
+  Proof.
+    intros Hc Hx Hy. pose proof (e_curve_eq x y Hc) as K.
+    unfold e_from_y. cbv zeta. change (ec_p c) with p. change (ep_a (ec c)) with a. change (ep_d (ec c)) with d.
+    set (den := subm p a (mulm p d (mulm p y y))).
+    assert (Hd : eqm p den (a - d * (y * y))) by (unfold eqm, den; unfold_m; zmod).
+    assert (Hdr : 0 <= den < p) by (unfold den, subm; apply Z.mod_pos_bound; lia).
+    destruct (den =? 0) eqn:Ed.
+    - (* den = 0 forces y^2 = 1 and a = d *)
+      exfalso. apply Z.eqb_eq in Ed. rewrite Ed in Hd.
+      assert (Y : eqm p (y * y) 1).
+      { rewrite <- Hd in K. apply (eqm_shift p _ _ _ _ K). ring. }
+      apply (eok_ad c OK). change (ep_a (ec c)) with a. change (ep_d (ec c)) with d. change (ec_p c) with p.
+      assert (Z0 : eqm p (a - d) 0).
+      { transitivity (a - d * (y * y)); [|symmetry; exact Hd].
+        rewrite Y. apply eqm_refl_eq. ring. }
+      unfold eqm in Z0. rewrite Z0. apply Zmod_0_l.
+    - apply Z.eqb_neq in Ed.
+      pose proof (zp_inv_correct p den Hp ltac:(lia)) as Hi.
+      assert (Hi' : eqm p (den * zp_inv p den) 1) by (unfold eqm; rewrite Hi; symmetry; apply one_mod; lia).
+      assert (V : mulm p (subm p (1 mod p) (mulm p y y)) (zp_inv p den) = mulm p x x).
+      { unfold_m.
+        match goal with |- ?L mod _ = ?R mod _ => change (eqm p L R) end.
+        pose proof (mod_eqm p) as Hq. rewrite_strat (repeat (outermost Hq)). clear Hq.
+        rewrite <- K, <- Hd.
+        replace (x * x * den * zp_inv p den) with (x * x * (den * zp_inv p den)) by ring.
+        rewrite Hi'. apply eqm_refl_eq. ring. }
+      rewrite V.
+      destruct (ts_sqrt_complete p (ec_e c) (ec_rou c) Hp (eok_e c OK) (eok_m c OK) (eok_g c OK) (eok_rou c OK) x Hx)
+        as [s Hs].
+      rewrite Hs. exists s. split; [reflexivity|].
+      assert (Hp0 : 0 < p) by lia.
+      pose proof (ts_sqrt_range p _ _ _ _ Hp0 Hs) as Hr. apply ts_sqrt_sound in Hs.
+      apply prime_sq_eq; try assumption.
+      unfold eqm. unfold mulm in Hs. rewrite Hs. apply Zmod_mod.
+  Qed.
+
+  Lemma e_top_double : 2 * e_top c = 256 ^ Z.of_nat (ec_len c).
+  Proof.
+    pose proof (eok_len1 c OK).
+    unfold e_top. replace (256 ^ Z.of_nat (ec_len c)) with (2 ^ (8 * Z.of_nat (ec_len c))).
+    2:{ rewrite Z.pow_mul_r by lia. reflexivity. }
+    replace (8 * Z.of_nat (ec_len c)) with (Z.succ (8 * Z.of_nat (ec_len c) - 1)) at 2 by lia.
+    rewrite Z.pow_succ_r by lia. reflexivity.
+  Qed.
+
+  Theorem ed_roundtrip_c P :
+    e_on_curve (ec c) P = true -> e_canon c P -> ed_dec_c c (ed_enc_c c P) = Some P.
+  Proof.
+    destruct P as [x y]. intros Hc [Hx Hy]. cbn [fst snd] in Hx, Hy. fold p in Hx, Hy.
+    pose proof e_top_double as TD. pose proof (eok_top c OK) as TT. fold p in TT.
+    assert (TP : 0 < e_top c) by lia.
+    unfold ed_enc_c, ed_dec_c. rewrite le_enc_length, Nat.eqb_refl. cbn [negb]. cbv zeta.
+    pose proof (Z.mod_pos_bound x 2 ltac:(lia)) as B.
+    rewrite le_val_le_enc by nia.
+    assert (Hs : (y + x mod 2 * e_top c) / e_top c = x mod 2).
+    { rewrite Z.div_add by lia. rewrite Z.div_small by lia. lia. }
+    assert (Hm : (y + x mod 2 * e_top c) mod e_top c = y).
+    { rewrite Z_mod_plus_full. apply Z.mod_small. lia. }
+    rewrite Hs, Hm. fold p. rewrite Z.mod_small by lia.
+    destruct (e_from_y_complete x y Hc Hx Hy) as [s [E S]]. rewrite E.
+    rewrite (fix_parity p s x Hodd Hx S). reflexivity.
+  Qed.
+
+  Theorem ed_roundtrip_u P :
+    e_on_curve (ec c) P = true -> e_canon c P -> ed_dec_u c (ed_enc_u c P) = Some P.
+  Proof.
+    destruct P as [x y]. intros Hc [Hx Hy]. cbn [fst snd] in Hx, Hy. fold p in Hx, Hy.
+    pose proof e_top_double as TD. pose proof (eok_top c OK) as TT. fold p in TT.
+    unfold ed_enc_u, ed_dec_u. rewrite app_length, !le_enc_length.
+    replace (ec_len c + ec_len c)%nat with (2 * ec_len c)%nat by lia.
+    rewrite Nat.eqb_refl. cbn [negb].
+    rewrite firstn_app_len, skipn_app_len by apply le_enc_length.
+    unfold e_fp_set_bytes. rewrite !le_enc_length, Nat.eqb_refl. cbn [negb]. cbv zeta.
+    rewrite !le_val_le_enc by lia.
+    assert (Lx : (e_top c <=? x) = false) by (apply Z.leb_gt; lia).
+    assert (Ly : (e_top c <=? y) = false) by (apply Z.leb_gt; lia).
+    rewrite Lx, Ly. fold p. rewrite !Z.mod_small by lia.
+    revert Hc. unfold e_set_affine, e_on_curve, eaff_on_curve. cbn [Zp feqb fmul fadd f1]. cbv zeta.
+    rewrite Z.eqb_eq. change (ep_p (ec c)) with p. intros E.
+    match goal with |- (if ?b then _ else _) = _ => assert (Hb : b = true) end.
+    { apply Z.eqb_eq. unfold_m. change (ec_p c) with p. rewrite E. zmod. }
+    rewrite Hb. reflexivity.
+  Qed.
+
+  (* prime-subgroup type: members of the subgroup survive, by the same decoders *)
+  Theorem edp_roundtrip P :
+    e_on_curve (ec c) P = true -> e_canon c P -> e_in_subgroup c P ->
+    edp_dec_c c (ed_enc_c c P) = Some P /\ edp_dec_u c (ed_enc_u c P) = Some P.
+  Proof.
+    intros Hc Hr Hs. unfold edp_dec_c, edp_dec_u.
+    rewrite (ed_roundtrip_c P Hc Hr), (ed_roundtrip_u P Hc Hr). unfold e_sub.
+    apply e_torsion_free_spec in Hs. rewrite Hs. auto.
+  Qed.
+End ERoundTrip.
+
+(* ---- the concrete curves ------------------------------------------------------------------------
+   Primality of the moduli is not proved (no certificate checker): it stays a hypothesis.  The
+   other side conditions are closed equations on constants, decided by vm_compute. *)
+
+Ltac codec_ok Hp :=
+  constructor;
+  [ exact Hp
+  | vm_compute; repeat constructor
+  | vm_compute; reflexivity
+  | vm_compute; discriminate
+  | vm_compute; reflexivity
+  | vm_compute; discriminate ].
+
+Lemma k256_codec_ok : prime (wp_p k256_params) -> wcodec_ok k256_codec.
+Proof. intros Hp. codec_ok Hp. Qed.
+Lemma p256_codec_ok : prime (wp_p p256_params) -> wcodec_ok p256_codec.
+Proof. intros Hp. codec_ok Hp. Qed.
+Lemma pallas_codec_ok : prime (wp_p pallas_params) -> wcodec_ok pallas_codec.
+Proof. intros Hp. codec_ok Hp. Qed.
+Lemma vesta_codec_ok : prime (wp_p vesta_params) -> wcodec_ok vesta_codec.
+Proof. intros Hp. codec_ok Hp. Qed.
+Lemma blsg1_codec_ok : prime bls12381_p -> wcodec_ok blsg1_codec.
+Proof. intros Hp. codec_ok Hp. Qed.
+
+Lemma ed25519_codec_ok : prime (ep_p ed25519_params) -> ecodec_ok ed25519_codec.
+Proof.
+  intros Hp. constructor;
+  [ exact Hp
+  | vm_compute; repeat constructor
+  | vm_compute; reflexivity
+  | vm_compute; discriminate
+  | vm_compute; reflexivity
+  | vm_compute; repeat constructor
+  | vm_compute; discriminate
+  | vm_compute; discriminate ].
+Qed.
+
+(* Euler's criterion on the curve constant b *)
+Lemma k256_b_nonresidue : euler (wc_p k256_codec) (wp_b (wc k256_codec)) = wc_p k256_codec - 1.
+Proof. vm_compute. reflexivity. Qed.
+Lemma pallas_b_nonresidue : euler (wc_p pallas_codec) (wp_b (wc pallas_codec)) = wc_p pallas_codec - 1.
+Proof. vm_compute. reflexivity. Qed.
+Lemma vesta_b_nonresidue : euler (wc_p vesta_codec) (wp_b (wc vesta_codec)) = wc_p vesta_codec - 1.
+Proof. vm_compute. reflexivity. Qed.
+Lemma p256_b_residue : euler (wc_p p256_codec) (wp_b (wc p256_codec)) = 1.
+Proof. vm_compute. reflexivity. Qed.
+
+Theorem k256_roundtrip_all P : prime (wp_p k256_params) ->
+  w_on_curve k256_params P = true -> w_canon k256_codec P ->
+  sec1_dec_c k256_codec (sec1_enc_c k256_codec P) = Some P.
+Proof.
+  intros Hp. apply (sec1_roundtrip_c_all k256_codec); [now apply k256_codec_ok|exact k256_b_nonresidue].
+Qed.
+
+Lemma pasta_roundtrip_c_all c P : wcodec_ok c -> (1 <= wc_len c)%nat -> wc_p c <= top_bit c ->
+  euler (wc_p c) (wp_b (wc c)) = wc_p c - 1 ->
+  w_on_curve (wc c) P = true -> w_canon c P ->
+  pasta_dec_c c (pasta_enc_c c P) = Some P.
+Proof.
+  intros OK L T He Hc Hr. apply pasta_roundtrip_c; try assumption.
+  intros y ->. exfalso. cbn [w_canon] in Hr. apply (no_point_x0 c y OK He); tauto.
+Qed.
+
+Theorem pallas_roundtrip_all P : prime (wp_p pallas_params) ->
+  w_on_curve pallas_params P = true -> w_canon pallas_codec P ->
+  pasta_dec_c pallas_codec (pasta_enc_c pallas_codec P) = Some P.
+Proof.
+  intros Hp. apply (pasta_roundtrip_c_all pallas_codec);
+    [now apply pallas_codec_ok|vm_compute; repeat constructor|vm_compute; discriminate|exact pallas_b_nonresidue].
+Qed.
+
+Theorem vesta_roundtrip_all P : prime (wp_p vesta_params) ->
+  w_on_curve vesta_params P = true -> w_canon vesta_codec P ->
+  pasta_dec_c vesta_codec (pasta_enc_c vesta_codec P) = Some P.
+Proof.
+  intros Hp. apply (pasta_roundtrip_c_all vesta_codec);
+    [now apply vesta_codec_ok|vm_compute; repeat constructor|vm_compute; discriminate|exact vesta_b_nonresidue].
+Qed.
+
+(* P-256: b is a square, the two points (0, ±sqrt b) exist, and their compressed encodings are
+   decoded as the identity (finding F2): the unrestricted round trip is FALSE of the code *)
+Definition p256_sqrt_b : Z := 0x66485c780e2f83d72433bd5d84a06bb6541c2af31dae871728bf856a174f93f4.
+
+Theorem p256_roundtrip_refuted :
+  exists P, w_on_curve p256_params P = true /\ w_canon p256_codec P /\
+            sec1_dec_c p256_codec (sec1_enc_c p256_codec P) <> Some P.
+Proof.
+  exists (Some (0, p256_sqrt_b)). split; [vm_compute; reflexivity|]. split.
+  - vm_compute. repeat split; discriminate.
+  - rewrite sec1_x0_collides. discriminate.
+Qed.
+
+Theorem p256_encode_not_injective :
+  exists P Q, P <> Q /\ w_on_curve p256_params P = true /\ w_on_curve p256_params Q = true /\
+              sec1_enc_c p256_codec P = sec1_enc_c p256_codec Q.
+Proof.
+  exists (Some (0, p256_sqrt_b)), None. split; [discriminate|]. repeat split; vm_compute; reflexivity.
+Qed.
+
+(* ---- non-vacuity: a toy curve over F_11 meets every hypothesis ---------------------------------- *)
+
+Lemma prime_11 : prime 11.
+Proof.
+  apply prime_intro; [lia|]. intros n Hn. apply Zgcd_1_rel_prime.
+  assert (n = 1 \/ n = 2 \/ n = 3 \/ n = 4 \/ n = 5 \/ n = 6 \/ n = 7 \/ n = 8 \/ n = 9 \/ n = 10) as H by lia.
+  repeat (destruct H as [-> | H]; [reflexivity|]). subst n. reflexivity.
+Qed.
+
+Definition toy_codec : wcodec :=
+  mk_wcodec (mk_wparams 11 0 7 5 0 12 1) 1 10 1.    (* y^2 = x^3 + 7 over F_11, 12 points *)
+
+Lemma toy_codec_ok : wcodec_ok toy_codec.
+Proof. codec_ok prime_11. Qed.
